@@ -71,11 +71,11 @@ def join(
     key_paths = []
     for pp in paths_in:
         with new_dataset(pp) as dsa:
-            # sorting key
-            key = "_".join([dsa.config["experiment"]["date"],
-                            dsa.config["experiment"]["time"],
-                            str(dsa.config["experiment"]["run index"])
-                            ])
+            # sorting key: acquisition time in seconds (not the date and
+            # time strings, which do not sort chronologically when only
+            # some of them have fractional seconds), then run index
+            key = (get_acquisition_time(dsa),
+                   dsa.config["experiment"]["run index"])
             key_paths.append((key, pp))
     sorted_paths = [p[1] for p in sorted(key_paths, key=lambda x: x[0])]
 
@@ -85,14 +85,7 @@ def join(
     t_offsets = np.zeros(len(sorted_paths), dtype=np.float64)
     for ii, pp in enumerate(sorted_paths):
         with new_dataset(pp) as dsb:
-            etime = dsb.config["experiment"]["time"]
-            st = time.strptime(dsb.config["experiment"]["date"]
-                               + etime[:8],
-                               "%Y-%m-%d%H:%M:%S")
-            t_offsets[ii] = time.mktime(st)
-            if len(etime) > 8:
-                # floating point time stored as well (HH:MM:SS.SS)
-                t_offsets[ii] += float(etime[8:])
+            t_offsets[ii] = get_acquisition_time(dsb)
     t_offsets -= t_offsets[0]
 
     # Determine features to export (based on first file)
@@ -212,6 +205,22 @@ def join(
     path_temp.rename(path_out)
     if ret_path:
         return path_out
+
+
+def get_acquisition_time(ds):
+    """Return the acquisition time of a dataset in seconds since the epoch
+
+    The time is computed from the "date" and "time" keys of the
+    "experiment" section; fractional seconds (HH:MM:SS.SS) are honored.
+    """
+    etime = ds.config["experiment"]["time"]
+    st = time.strptime(ds.config["experiment"]["date"] + etime[:8],
+                       "%Y-%m-%d%H:%M:%S")
+    t_acq = time.mktime(st)
+    if len(etime) > 8:
+        # floating point time stored as well (HH:MM:SS.SS)
+        t_acq += float(etime[8:])
+    return t_acq
 
 
 def join_parser():
